@@ -387,4 +387,130 @@ theorem rel_step (s : State) (sp : Spec) (k : Nat) (h : Rel s sp) :
       · exact rel_step_above s sp k m h hk hm hlt
       · exact rel_step_below s sp k m h hk hm (by omega)
 
+
+/-! ### whole histories -/
+
+/-- invariant of the reference: `max` is the highest accepted id and no id is listed twice -/
+structure SpecInv (sp : Spec) : Prop where
+  max_eq : sp.max = highest sp.accepted
+  nodup : sp.accepted.Nodup
+
+theorem specInv_init : SpecInv Spec.init := ⟨rfl, List.nodup_nil⟩
+
+theorem specInv_step (sp : Spec) (k : Nat) (h : SpecInv sp) : SpecInv (sp.step k).1 := by
+  by_cases hacc : sp.accepts k = true
+  · rw [step_accept sp k hacc]
+    refine ⟨?_, ?_⟩
+    · show some (sp.newMax k) = highest (k :: sp.accepted)
+      unfold highest Spec.newMax
+      rw [← h.max_eq]
+    · have := (accepts_iff sp k).1 hacc
+      exact List.nodup_cons.2 ⟨this.2.1, h.nodup⟩
+  · rw [step_reject sp k hacc]; exact h
+
+theorem specInv_run (sp : Spec) (ks : List Nat) (h : SpecInv sp) : SpecInv (sp.runState ks) := by
+  induction ks generalizing sp with
+  | nil => exact h
+  | cons k ks ih => exact ih _ (specInv_step sp k h)
+
+/-- the window follows the reference along every history, and the ids it answered `Ok` are
+    exactly the reference's accepted set -/
+theorem rel_run (s : State) (sp : Spec) (ks : List Nat) (h : Rel s sp) :
+    Rel (runState s ks) (sp.runState ks) ∧ acceptedIds s sp.accepted ks = (sp.runState ks).accepted := by
+  induction ks generalizing s sp with
+  | nil => exact ⟨h, rfl⟩
+  | cons k ks ih =>
+    obtain ⟨hr, ho⟩ := rel_step s sp k h
+    have := ih _ _ hr
+    refine ⟨this.1, ?_⟩
+    show acceptedIds (postAuthentication s k).1
+        (if isOk (postAuthentication s k).2 then k :: sp.accepted else sp.accepted) ks
+        = ((sp.step k).1.runState ks).accepted
+    rw [← this.2, ho]
+    by_cases hacc : sp.accepts k = true
+    · rw [step_accept sp k hacc]; simp
+    · rw [step_reject sp k hacc]; simp
+
+/-- the accepted set only grows -/
+theorem accepted_mono (sp : Spec) (ks : List Nat) (x : Nat) (hx : x ∈ sp.accepted) :
+    x ∈ (sp.runState ks).accepted := by
+  induction ks generalizing sp with
+  | nil => exact hx
+  | cons k ks ih =>
+    apply ih
+    by_cases hacc : sp.accepts k = true
+    · rw [step_accept sp k hacc]; exact List.mem_cons_of_mem _ hx
+    · rw [step_reject sp k hacc]; exact hx
+
+theorem runState_append (s : State) (a b : List Nat) : runState s (a ++ b) = runState (runState s a) b := by
+  induction a generalizing s with
+  | nil => rfl
+  | cons k ks ih => exact ih _
+
+theorem spec_runState_append (sp : Spec) (a b : List Nat) :
+    sp.runState (a ++ b) = (sp.runState a).runState b := by
+  induction a generalizing sp with
+  | nil => rfl
+  | cons k ks ih => exact ih _
+
 end Quic.Proofs.DcReplay
+
+namespace Quic.Proofs.DcKeyIds
+open Quic.Dc.KeyIds
+
+/-- what a successful `next_key_id` does: hands out the old counter and stores counter + 1 < MAX -/
+theorem next_cases (c : Nat) :
+    (c + 1 < varIntMax ∧ next c = (c + 1, some c)) ∨ (varIntMax ≤ c + 1 ∧ next c = (c, none)) := by
+  unfold next nextUpdate
+  by_cases h1 : c + 1 ≤ varIntMax
+  · by_cases h2 : c + 1 = varIntMax
+    · right; rw [if_pos h1, if_neg (by simpa using h2)]; exact ⟨by omega, rfl⟩
+    · left; rw [if_pos h1, if_pos h2]; exact ⟨by omega, rfl⟩
+  · right; rw [if_neg h1]; exact ⟨by omega, rfl⟩
+
+/-- the counter never decreases -/
+theorem step_mono (c : Nat) (s : Step) : c ≤ (step c s).1 := by
+  cases s with
+  | next t =>
+    show c ≤ (next c).1
+    rcases next_cases c with ⟨_, h⟩ | ⟨_, h⟩ <;> rw [h] <;> simp
+  | stale t v => show c ≤ max c v; exact Nat.le_max_left _ _
+
+/-- an id handed out by a step is the counter before the step, and the counter moves past it -/
+theorem step_some (c : Nat) (s : Step) (id : Nat) (h : (step c s).2 = some id) :
+    id = c ∧ (step c s).1 = c + 1 ∧ c + 1 < varIntMax := by
+  cases s with
+  | next t =>
+    change (next c).2 = some id at h
+    show id = c ∧ (next c).1 = c + 1 ∧ c + 1 < varIntMax
+    rcases next_cases c with ⟨h1, h2⟩ | ⟨_, h2⟩
+    · rw [h2] at h ⊢; simp only [Option.some.injEq] at h; exact ⟨h.symm, rfl, h1⟩
+    · rw [h2] at h; cases h
+  | stale t v => cases h
+
+theorem issued_cons (c : Nat) (s : Step) (ss : List Step) :
+    issued c (s :: ss) = (match (step c s).2 with
+      | some id => id :: issued (step c s).1 ss
+      | none => issued (step c s).1 ss) := rfl
+
+/-- every id issued from counter value c on is ≥ c -/
+theorem issued_ge (c : Nat) (ss : List Step) : ∀ x ∈ issued c ss, c ≤ x := by
+  induction ss generalizing c with
+  | nil => intro x hx; cases hx
+  | cons s ss ih =>
+    intro x hx
+    rw [issued_cons] at hx
+    have hmono := step_mono c s
+    cases hs : (step c s).2 with
+    | none =>
+      rw [hs] at hx
+      have := ih _ x hx; omega
+    | some id =>
+      rw [hs] at hx
+      obtain ⟨h1, h2, _⟩ := step_some c s id hs
+      simp only [List.mem_cons] at hx
+      rcases hx with hx | hx
+      · omega
+      · have := ih _ x hx; omega
+
+end Quic.Proofs.DcKeyIds
